@@ -379,3 +379,8 @@ M("c02-raw-dict-kept-from-load", ["C02"],
 M("c11-readd-attached-variant-elsewhere", ["C11"],
   (CI, '            if old_parent is not None and old_parent is not self and any(i is variant for i in old_parent.variants.values()):\n                raise ValueError("Variant already belongs to another parent: %s" % variant.uid)\n', ''),
   (CI, '                if item is not self and any(i is variant for i in item.variants.values()):\n                    # the very same object under a second holder would be in the forest twice\n                    raise ValueError("Variant already belongs to another parent: %s" % variant.uid)\n', ''))
+M("c04-checksums-of-the-loaded-file-written-again", ["C04"],
+  (TI, '                self.checksums[path] = (checksum_type, checksum)\n        self.validate()\n',
+       '                self.checksums[path] = (checksum_type, checksum)\n            self._loaded = dict(self.checksums)\n        self.validate()\n'),
+  (TI, '        self.validate()\n        if not self.checksums:\n            return\n        parser.add_section(self._section)\n',
+       '        self.validate()\n        for path, value in getattr(self, "_loaded", {}).items():\n            self.checksums.setdefault(path, value)\n        if not self.checksums:\n            return\n        parser.add_section(self._section)\n'))
